@@ -448,6 +448,46 @@ def run_case(case, ctx):
         for ep, f in (("mdstore.InMemoryMetaData.parse", load_mem), ("mdstore.MetaDataFile.load", load_file), ("mdstore.MetadataStore.imp[inline]", load_store)):
             for doc, tag in ((mdxml, "entity"), (wrapped, "entities")):
                 _battery(o, "%s[%s]" % (ep, tag), f, doc, scratch, rng, case["trunc"], text_variants=True)
+        # scale: federation aggregates of many megabytes that declare entities - whatever a loader does differently for big input, it is
+        # the same refusal
+        one = mdxml.split("?>")[-1]
+        eid = fed.IDP_EID
+
+        def aggregate(nbytes, decl, ref):
+            n = max(1, nbytes // (len(one) + 8))
+            parts = [one.replace(eid, "https://e%06d.example.org/md" % i) for i in range(n - 1)]
+            parts.append(one.replace(eid, "https://last.example.org/md").replace(fed.SSO_REDIRECT, ref))
+            return ("%s<md:EntitiesDescriptor xmlns:md=\"urn:oasis:names:tc:SAML:2.0:metadata\" Name=\"big\">%s</md:EntitiesDescriptor>" % (decl, "".join(parts))).encode("utf-8")
+
+        def load_dir(d):
+            dd = os.path.join(scratch, "md-dir-%d" % rng.randrange(10 ** 9))
+            os.mkdir(dd)
+            with open(os.path.join(dd, "fed.xml"), "wb") as fh:
+                fh.write(d)
+            try:
+                ms = mdstore.MetadataStore(attrc, None)
+                ms.load("local", dd)
+                return ms if len(ms.keys()) else None
+            finally:
+                import shutil as _sh
+                _sh.rmtree(dd, ignore_errors=True)
+
+        def load_classlist(d):
+            pth = os.path.join(scratch, "md-big-%d.xml" % rng.randrange(10 ** 9))
+            with open(pth, "wb") as fh:
+                fh.write(d)
+            try:
+                ms = mdstore.MetadataStore(attrc, None)
+                ms.imp([{"class": "saml2_tophat.mdstore.MetaDataFile", "metadata": [(pth,)]}])
+                return ms if len(ms.keys()) else None
+            finally:
+                os.unlink(pth)
+        sizes = (1 << 20, 20 << 20) if ctx.tier == "quick" else (1 << 20, 20 << 20, 70 << 20, 150 << 20)
+        for nbytes in sizes:
+            big = aggregate(nbytes, '<!DOCTYPE md [<!ENTITY e "https://evil.example.net/collect"><!ENTITY b "&e;&e;">]>', "&e;")
+            for ep, f in (("mdstore.MetaDataFile.load", load_file), ("mdstore.MetadataStore.load[local directory]", load_dir), ("mdstore.MetadataStore.imp[file class list]", load_classlist)):
+                o.call("%s[%d MiB]" % (ep, nbytes >> 20), "internal-entity/big", f, big, "raise")
+            del big
     elif kind == "strace":
         return run_traced(case, ctx)
     elif kind == "suite":
